@@ -226,4 +226,74 @@ def fnNoJumpInHandlerOfTryWithFinally : Stmt → Bool
   | .functionDef _ _ _ body _ _ _ => noJumpL body
   | _ => true
 
+
+/-! ### The hypotheses of `C05_paths_partial` (evaluated by the driver for every program) -/
+
+/-- Tags separating the two families of dictionary keys: section keys (`exits`, `continues`, `section_entry`) and
+conditional-section keys (`cond_entry`, `cond_leaves`).  The same AST node may key both families (a `while` that is the
+first statement of a try's `else` block); a clash inside one family is what makes the real code fail an `assert`. -/
+def sk (i : Nat) : Nat := 2 * i
+def ck (i : Nat) : Nat := 2 * i + 1
+
+
+/-- The conditional-section key of an optional part of `visit_Try` (its first statement), if present. -/
+def repKey (ss : List Stmt) : List Nat := (ss.head?.map (fun s => ck s.id)).toList
+
+mutual
+/-- The (tagged) dictionary keys the visit of `s` creates or deletes in the current builder (nested function/class
+bodies excluded: they have their own builders). -/
+def stmtKeys' : Stmt → List Nat
+  | .if_ i _ body orelse => ck i :: (keysL body ++ keysL orelse)
+  | .while_ i _ body orelse => sk i :: (keysL body ++ keysL orelse)
+  | .for_ i _ _ body orelse _ isAsync => if isAsync then keysL body ++ keysL orelse else sk i :: (keysL body ++ keysL orelse)
+  | .with_ _ _ body _ => keysL body
+  | .try_ _ body handlers orelse final =>
+      repKey orelse ++ (repKey handlers ++ (keysL body ++ (keysL handlers ++ (keysL orelse ++ keysL final))))
+  | .handler i _ _ body => sk i :: keysL body
+  | .functionDef _ _ _ body _ _ isAsync => if isAsync then keysL body else []
+  | _ => []
+def keysL : List Stmt → List Nat
+  | [] => []
+  | s :: ss => stmtKeys' s ++ keysL ss
+end
+
+
+mutual
+/-- Statements of the modelled language that contain no `finally` block (nested function/class bodies are not inspected:
+they have their own graphs).  `inLoop`: a `break`/`continue` here has a target loop in this function. -/
+def frag2 (inLoop : Bool) : Stmt → Bool
+  | .try_ _ body handlers orelse final =>
+      final.isEmpty && frag2L inLoop body && frag2H inLoop handlers && frag2L inLoop orelse
+  | .handler .. => false
+  | .other .. => false
+  | .if_ _ _ body orelse => frag2L inLoop body && frag2L inLoop orelse
+  | .while_ _ _ body orelse => frag2L true body && frag2L inLoop orelse
+  | .for_ _ _ _ body orelse extra isAsync => !isAsync && extra.isEmpty && frag2L true body && frag2L inLoop orelse
+  | .with_ _ _ body isAsync => !isAsync && frag2L inLoop body
+  | .functionDef _ _ _ _ _ _ isAsync => !isAsync
+  | .break_ _ => inLoop
+  | .continue_ _ => inLoop
+  | _ => true
+def frag2L (inLoop : Bool) : List Stmt → Bool
+  | [] => true
+  | s :: ss => frag2 inLoop s && frag2L inLoop ss
+/-- handlers: `except T:` without a name (`except T as e` makes the real builder crash) -/
+def frag2H (inLoop : Bool) : List Stmt → Bool
+  | [] => true
+  | .handler _ _ name body :: hs => name.isEmpty && frag2L inLoop body && frag2H inLoop hs
+  | _ :: _ => false
+end
+
+
+/-- The root function is in the `finally`-free fragment. -/
+def fnFrag2 : Stmt → Bool
+  | .functionDef _ _ _ body _ _ isAsync => !isAsync && frag2L false body
+  | _ => false
+
+/-- The section keys of the function are pairwise distinct (they are statement ids assigned by the serialiser). -/
+def fnDistinctKeys : Stmt → Bool
+  | .functionDef i _ _ body _ _ _ => nodupB (sk i :: keysL body)
+  | _ => false
+
+
 end Malt.Cfg
